@@ -1,5 +1,7 @@
 import NurbsVerif.Lemmas.MeshGeom
 import NurbsVerif.Lemmas.MeshEdges
+import NurbsVerif.Lemmas.MeshTiling
+import NurbsVerif.Lemmas.MeshTilingQuad
 
 /-!
 # C15  Tessellation is a valid triangulation lying on the surface
@@ -127,6 +129,71 @@ theorem cell_partition (x0 x1 y0 y1 x y : K) (hX : x0 < x1) (hY : y0 < y1) :
   ⟨⟨fun ⟨a, b, c, d⟩ => cell_cover x0 x1 y0 y1 x y a b c d, cell_tri_sub x0 x1 y0 y1 x y hX hY⟩,
    cell_overlap_diag x0 x1 y0 y1 x y⟩
 
+/-! ### the tiling as a point-set statement for the whole rectangle
+
+`meshUV su sv s k` is the parameter pair `uv` the model's mesh assigns to the vertex with id `k`;
+`inFace uv [a,b,c] p` says that `p` lies in the closed triangle `uv a, uv b, uv c` (on the non-negative side of
+its three positively oriented edges), `inFaceInterior` that it lies strictly inside. -/
+
+/-- **Covering.**  Every point of the rectangle spanned by the grid lines, `[0, (nu-1)·u_jump] × [0, (nv-1)·v_jump]`,
+    lies in the closed parametric triangle of at least one face - any sample sizes `≥ 2`, any vertex spacing that
+    leaves at least two grid lines per direction. -/
+theorem tiling_covers (su sv s : ℕ) (hs : 0 < s) (hsu : 2 ≤ su) (hsv : 2 ≤ sv)
+    (hu : 2 ≤ gridCount su s) (hv : 2 ≤ gridCount sv s) (x y : K)
+    (hx0 : 0 ≤ x) (hx1 : x ≤ ((gridCount su s - 1 : ℕ) : K) * meshJump su s)
+    (hy0 : 0 ≤ y) (hy1 : y ≤ ((gridCount sv s - 1 : ℕ) : K) * meshJump sv s) :
+    ∃ t ∈ (makeTriangleMesh (K := K) su sv s).faces, inFace (meshUV (K := K) su sv s) t (x, y) :=
+  mesh_cover su sv s hs hsu hsv hu hv x y hx0 hx1 hy0 hy1
+
+/-- **Nothing sticks out**: every point of every face lies in that rectangle. -/
+theorem tiling_inside (su sv s : ℕ) (hs : 0 < s) (hsu : 2 ≤ su) (hsv : 2 ≤ sv)
+    (hu : 2 ≤ gridCount su s) (hv : 2 ≤ gridCount sv s) (x y : K) (t : List ℕ)
+    (ht : t ∈ (makeTriangleMesh (K := K) su sv s).faces) (h : inFace (meshUV (K := K) su sv s) t (x, y)) :
+    0 ≤ x ∧ x ≤ ((gridCount su s - 1 : ℕ) : K) * meshJump su s ∧
+    0 ≤ y ∧ y ≤ ((gridCount sv s - 1 : ℕ) : K) * meshJump sv s :=
+  mesh_faces_inside su sv s hs hsu hsv hu hv x y t ht h
+
+/-- **Exactly once.**  A point in the open interior of a face lies in no other face (not even on the boundary of
+    one); equivalently: a point that lies in two different faces lies on an edge of both. -/
+theorem tiling_exactly_once (su sv s : ℕ) (hs : 0 < s) (hsu : 2 ≤ su) (hsv : 2 ≤ sv)
+    (hu : 2 ≤ gridCount su s) (hv : 2 ≤ gridCount sv s) (p : K × K) (t t' : List ℕ)
+    (ht : t ∈ (makeTriangleMesh (K := K) su sv s).faces) (ht' : t' ∈ (makeTriangleMesh (K := K) su sv s).faces)
+    (h : inFaceInterior (meshUV (K := K) su sv s) t p) (h' : inFace (meshUV (K := K) su sv s) t' p) : t = t' :=
+  mesh_interior_unique su sv s hs hsu hsv hu hv p t t' ht ht' h h'
+
+/-- The open interiors of two different faces are disjoint. -/
+theorem tiling_interiors_disjoint (su sv s : ℕ) (hs : 0 < s) (hsu : 2 ≤ su) (hsv : 2 ≤ sv)
+    (hu : 2 ≤ gridCount su s) (hv : 2 ≤ gridCount sv s) (p : K × K) (t t' : List ℕ)
+    (ht : t ∈ (makeTriangleMesh (K := K) su sv s).faces) (ht' : t' ∈ (makeTriangleMesh (K := K) su sv s).faces)
+    (hne : t ≠ t') :
+    ¬ (inFaceInterior (meshUV (K := K) su sv s) t p ∧ inFaceInterior (meshUV (K := K) su sv s) t' p) :=
+  mesh_interiors_disjoint su sv s hs hsu hsv hu hv p t t' ht ht' hne
+
+/-- **The parametric rectangle `[0,1]²`.**  When the spacing divides `size - 1` in both directions (always for
+    spacing 1) the faces tile `[0,1]²` exactly once: every `(x, y) ∈ [0,1]²` lies in a face, every face lies in
+    `[0,1]²`, and a point interior to one face lies in no other. -/
+theorem tiling_unit_square (ku kv s : ℕ) (hku : 0 < ku) (hkv : 0 < kv) (hs : 0 < s) :
+    (∀ x y : K, 0 ≤ x → x ≤ 1 → 0 ≤ y → y ≤ 1 →
+      ∃ t ∈ (makeTriangleMesh (K := K) (ku * s + 1) (kv * s + 1) s).faces,
+        inFace (meshUV (K := K) (ku * s + 1) (kv * s + 1) s) t (x, y)) ∧
+    (∀ (x y : K) (t : List ℕ), t ∈ (makeTriangleMesh (K := K) (ku * s + 1) (kv * s + 1) s).faces →
+      inFace (meshUV (K := K) (ku * s + 1) (kv * s + 1) s) t (x, y) → 0 ≤ x ∧ x ≤ 1 ∧ 0 ≤ y ∧ y ≤ 1) ∧
+    (∀ (p : K × K) (t t' : List ℕ), t ∈ (makeTriangleMesh (K := K) (ku * s + 1) (kv * s + 1) s).faces →
+      t' ∈ (makeTriangleMesh (K := K) (ku * s + 1) (kv * s + 1) s).faces →
+      inFaceInterior (meshUV (K := K) (ku * s + 1) (kv * s + 1) s) t p →
+      inFace (meshUV (K := K) (ku * s + 1) (kv * s + 1) s) t' p → t = t') := by
+  have hu : 2 ≤ gridCount (ku * s + 1) s := by rw [gridCount_of_dvd ku s hs]; omega
+  have hv : 2 ≤ gridCount (kv * s + 1) s := by rw [gridCount_of_dvd kv s hs]; omega
+  have hsu : 2 ≤ ku * s + 1 := by have := Nat.mul_pos hku hs; omega
+  have hsv : 2 ≤ kv * s + 1 := by have := Nat.mul_pos hkv hs; omega
+  have e1 := last_line_one (K := K) ku s hku hs
+  have e2 := last_line_one (K := K) kv s hkv hs
+  refine ⟨fun x y hx0 hx1 hy0 hy1 => mesh_cover _ _ s hs hsu hsv hu hv x y hx0 (by rw [e1]; exact hx1) hy0
+      (by rw [e2]; exact hy1), fun x y t ht h => ?_,
+    fun p t t' ht ht' h h' => mesh_interior_unique _ _ s hs hsu hsv hu hv p t t' ht ht' h h'⟩
+  have := mesh_faces_inside _ _ s hs hsu hsv hu hv x y t ht h
+  rwa [e1, e2] at this
+
 /-! ### edges, Euler characteristic -/
 
 /-- The undirected edges of the mesh are the `E = (nu-1)·nv + nu·(nv-1) + (nu-1)(nv-1)` listed ones
@@ -180,6 +247,28 @@ theorem quad_mesh (su sv : ℕ) :
     (∀ t ∈ makeQuadFaces su sv, ∀ v ∈ t, v < su * sv) :=
   ⟨makeQuadFaces_length su sv, fun _ => mem_makeQuadFaces, fun _ ht => makeQuadFaces_index_lt ht⟩
 
+/-- `make_quad_mesh` after the repair of F-15c stores a parameter pair in every vertex (`quadVertexUV`): for the
+    `su·sv` evaluated points of a surface the vertex of grid position `(i, j)` (id = point index `j + i·sv`) gets
+    `(i/(su-1), j/(sv-1))`, which is the pair of sample parameters `linspace(0,1,su)[i]`, `linspace(0,1,sv)[j]` at which
+    that point was evaluated (so re-evaluating the surface at the stored parameters returns the point itself) ... -/
+theorem quad_vertex_parameters (su sv i j : ℕ) (hi : i < su) (hj : j < sv) :
+    (quadVertexUV (K := K) (su * sv) su sv).length = su * sv ∧
+    (quadVertexUV (K := K) (su * sv) su sv)[gridVid sv i j]? =
+      some ((i : K) / ((su - 1 : ℕ) : K), (j : K) / ((sv - 1 : ℕ) : K)) ∧
+    (quadVertexUV (K := K) (su * sv) su sv)[gridVid sv i j]? =
+      some ((linspaceCore (0 : K) 1 su).getD i 0, (linspaceCore (0 : K) 1 sv).getD j 0) :=
+  ⟨quadVertexUV_length _ su sv, quadVertexUV_getElem? su sv i j hi hj, quadVertexUV_linspace su sv i j hi hj⟩
+
+/-- ... and the whole list is the parameter list of the triangle mesher for vertex spacing 1 (sizes `≥ 2`; for a size
+    of 1 the code divides by zero). -/
+theorem quad_vertex_parameters_eq_triangle_mesh (su sv : ℕ) (hu : 2 ≤ su) (hv : 2 ≤ sv) :
+    quadVertexUV (K := K) (su * sv) su sv = (makeTriangleMesh (K := K) su sv 1).uv :=
+  quadVertexUV_eq_tri su sv hu hv
+
+/-- non-vacuity: 2 x 3 points -/
+example : quadVertexUV (K := ℚ) (2 * 3) 2 3 = [(0, 0), (0, 1/2), (0, 1), (1, 0), (1, 1/2), (1, 1)] := by
+  decide +kernel
+
 /-! ### containers and exporters -/
 
 /-- OBJ (`base = 1`), OFF and container ids (`base = 0`): for any list of sample sizes, the written face
@@ -232,6 +321,15 @@ theorem pinned_ok_spacing_1_2 (size : ℕ) :
 
 /-- sample sizes 7×4, spacing 3 (the F-15 witness): 3×2 grid lines, hypotheses of the theorems hold -/
 example : 2 ≤ gridCount 7 3 ∧ 2 ≤ gridCount 4 3 ∧ gridCount 7 3 = 3 ∧ gridCount 4 3 = 2 := by decide
+
+/-- the tiling statement on sample sizes 7×4 with spacing 3 (grid lines u = 0, 1/2, 1 and v = 0, 1): the point
+    `(1/8, 3/4)` lies strictly inside face `[0, 3, 1]`, hence in no other face -/
+example : inFaceInterior (meshUV (K := ℚ) 7 4 3) [0, 3, 1] (1/8, 3/4) ∧
+    [0, 3, 1] ∈ (makeTriangleMesh (K := ℚ) 7 4 3).faces := by
+  refine ⟨?_, by decide⟩
+  refine (inFaceInterior_B (K := ℚ) 7 4 3 (by decide) (by decide) 0 0 (by decide) (by decide) (1/8, 3/4)).2 ?_
+  simp only [inTriangleInterior, cellCross2, meshJump]
+  norm_num
 
 /-- and the model's mesh there is the expected one -/
 example : (makeTriangleMesh (K := ℚ) 7 4 3).faces = [[0, 2, 3], [0, 3, 1], [2, 4, 5], [2, 5, 3]] ∧
